@@ -4,7 +4,7 @@
    packet to all callbacks, unsolicited value changes on the device.  [run c (init c) evs = Some (s, o)] ranges
    over ALL event lists, i.e. all interleavings of any number of user threads with the updater and dispatcher
    threads at the granularity "a thread runs until its next blocking operation", and all reply delays. *)
-From CF Require Import Common.Bytes C04.Model C04.Proofs C04.Proofs_b C04.Proofs_c C04.Proofs_d C04.Proofs_e C04.ExtModel C04.Proofs_x C04.Proofs_m C04.Race C04.Race_proofs C04.Cache C04.Examples.
+From CF Require Import Common.Bytes C04.Model C04.Proofs C04.Proofs_b C04.Proofs_c C04.Proofs_d C04.Proofs_e C04.ExtModel C04.Proofs_x C04.Proofs_m C04.Race C04.Race_proofs C04.Cache C04.Names C04.Examples.
 Open Scope Z_scope.
 
 (* ---------------------------------------------------------------- typed writes *)
@@ -45,7 +45,7 @@ Theorem C04_ro_unknown_refused_no_tx : forall c s name v,
   s_updated s = true ->
   (find_name (toc c) name = None -> step c s (EvSet name v) = Some (s, [ORaise X_KEY])) /\
   (forall e, find_name (toc c) name = Some e -> e_ro e = true -> step c s (EvSet name v) = Some (s, [ORaise X_ATTR])) /\
-  (find_name (toc c) name = None -> step c s (EvRead name) = Some (s, [ORaise X_STRUCT])).
+  (find_name (toc c) name = None -> step c s (EvRead name) = Some (s, [ORaise (read_exn name)])).
 Proof. exact set_refused. Qed.
 Print Assumptions C04_ro_unknown_refused_no_tx.
 
@@ -387,3 +387,27 @@ Theorem C04_in_place_strip_refuted : exists s o, run_strip ex_al (init ex_al) ex
   misc_calls o = [(1, 0, MDefault (VInt 42))] /\ s_clos s = [].
 Proof. exact ex_strip_misattributes. Qed.
 Print Assumptions C04_in_place_strip_refuted.
+
+(* ---------------------------------------------------------------- resolution of a complete name (strings) *)
+From Coq Require Import String Ascii.
+
+(* Toc.get_element_by_complete_name at HEAD: split at the dots, exactly two parts, toc[group][name].  With dot-free groups and
+   names in the table, a name resolves to e iff it IS the string group ++ "." ++ name of an entry holding e — no derived name
+   (known + ".tail", known + ".", "." + known, doubled dots, missing dot, other case, blanks, prefixes) resolves. *)
+Theorem C04_name_resolution_is_exact : forall (A : Type) (tbl : list (entry A)) n e, table_ok A tbl ->
+  (resolve A false tbl n = Some e <-> exists g m, lookup A tbl g m = Some e /\ n = String.append g (String.String "."%char m)).
+Proof. exact resolve_exact. Qed.
+Print Assumptions C04_name_resolution_is_exact.
+
+(* whatever the table holds, a resolved name has exactly one dot: an entry whose group or name contains a dot is unreachable *)
+Theorem C04_resolved_name_has_one_dot : forall (A : Type) (tbl : list (entry A)) n e, resolve A false tbl n = Some e ->
+  exists g m, n = String.append g (String.String "."%char m) /\ dotfree g = true /\ dotfree m = true.
+Proof. exact resolve_parts_dotfree. Qed.
+Print Assumptions C04_resolved_name_has_one_dot.
+
+(* the variant that accepts two OR MORE parts resolves names the table does not hold *)
+Theorem C04_prefix_tolerant_resolution_refuted :
+  resolve nat true ex_tbl "ring.effect.bak"%string = Some 7%nat /\ resolve nat true ex_tbl "ring.effect."%string = Some 7%nat /\
+  resolve nat true ex_tbl "pid.kp.min"%string = Some 3%nat /\ resolve nat false ex_tbl "ring.effect.bak"%string = None.
+Proof. destruct ex_tolerant as [H1 [H2 H3]]. destruct ex_exact as [H4 _]. now repeat split. Qed.
+Print Assumptions C04_prefix_tolerant_resolution_refuted.
